@@ -10,6 +10,20 @@ pub enum Obs<S> {
     Bool(bool),
 }
 
+/// the write_to_slice read path: into a buffer two elements longer than the vector, pre-filled with canaries; the observation is
+/// the first n elements, or the whole buffer (which can never match) when an element beyond n was touched
+fn wts<V: TV>(v: &V, n: usize, other: V::S) -> Obs<V::S> {
+    use crate::tv::{tok_bits, Scalar};
+    let c1 = V::S::from_u64(tok_bits(V::S::SC, "q2"));
+    let c2 = V::S::from_u64(tok_bits(V::S::SC, "q4"));
+    let mut b = vec![other; n + 2];
+    b[n] = c1;
+    b[n + 1] = c2;
+    v.write_to_slice_(&mut b[..]);
+    if b[n].to_u64() == c1.to_u64() && b[n + 1].to_u64() == c2.to_u64() { b.truncate(n); }
+    Obs::Lanes(b)
+}
+
 pub trait Acc: TV {
     fn ctor(path: &str, l: &[Self::S]) -> Option<Self>;
     fn konst(name: &str) -> Option<Self>;
@@ -60,7 +74,7 @@ macro_rules! impl_acc {
                     "field" => Obs::Lanes(vec![self.x, self.y]),
                     "index" => Obs::Lanes(vec![self[0], self[1]]),
                     "to_array" => Obs::Lanes(self.to_array().to_vec()),
-                    "write_to_slice" => { let mut b = [self.x; 2]; b[0] = self.y; self.write_to_slice(&mut b[..]); Obs::Lanes(b.to_vec()) }
+                    "write_to_slice" => wts(self, 2, self.y),
                     "into_array" => { let a: [$S; 2] = (*self).into(); Obs::Lanes(a.to_vec()) }
                     "into_tuple" => { let t: ($S, $S) = (*self).into(); Obs::Lanes(vec![t.0, t.1]) }
                     "as_ref" => { let a: &[$S; 2] = self.as_ref(); Obs::Lanes(a.to_vec()) }
@@ -108,7 +122,7 @@ macro_rules! impl_acc {
                     "field" => Obs::Lanes(vec![self.x, self.y, self.z]),
                     "index" => Obs::Lanes(vec![self[0], self[1], self[2]]),
                     "to_array" => Obs::Lanes(self.to_array().to_vec()),
-                    "write_to_slice" => { let mut b = [self.x; 3]; b[0] = self.z; self.write_to_slice(&mut b[..]); Obs::Lanes(b.to_vec()) }
+                    "write_to_slice" => wts(self, 3, self.z),
                     "into_array" => { let a: [$S; 3] = (*self).into(); Obs::Lanes(a.to_vec()) }
                     "into_tuple" => { let t: ($S, $S, $S) = (*self).into(); Obs::Lanes(vec![t.0, t.1, t.2]) }
                     "as_ref" => { let a: &[$S; 3] = self.as_ref(); Obs::Lanes(a.to_vec()) }
@@ -156,7 +170,7 @@ macro_rules! impl_acc {
                     "field" => Obs::Lanes(vec![self.x, self.y, self.z, self.w]),
                     "index" => Obs::Lanes(vec![self[0], self[1], self[2], self[3]]),
                     "to_array" => Obs::Lanes(self.to_array().to_vec()),
-                    "write_to_slice" => { let mut b = [self.x; 4]; b[0] = self.w; self.write_to_slice(&mut b[..]); Obs::Lanes(b.to_vec()) }
+                    "write_to_slice" => wts(self, 4, self.w),
                     "into_array" => { let a: [$S; 4] = (*self).into(); Obs::Lanes(a.to_vec()) }
                     "into_tuple" => { let t: ($S, $S, $S, $S) = (*self).into(); Obs::Lanes(vec![t.0, t.1, t.2, t.3]) }
                     "as_ref" => { let a: &[$S; 4] = self.as_ref(); Obs::Lanes(a.to_vec()) }
@@ -272,7 +286,7 @@ macro_rules! impl_quat_acc {
                 Some(match path {
                     "field" => Obs::Lanes(vec![self.x, self.y, self.z, self.w]),
                     "to_array" => Obs::Lanes(self.to_array().to_vec()),
-                    "write_to_slice" => { let mut b = [self.x; 4]; b[0] = self.w; self.write_to_slice(&mut b[..]); Obs::Lanes(b.to_vec()) }
+                    "write_to_slice" => wts(self, 4, self.w),
                     "into_array" => { let a: [$S; 4] = (*self).into(); Obs::Lanes(a.to_vec()) }
                     "into_tuple" => { let t: ($S, $S, $S, $S) = (*self).into(); Obs::Lanes(vec![t.0, t.1, t.2, t.3]) }
                     "index" => { let v: $V4 = (*self).into(); Obs::Lanes(v.to_array().to_vec()) }
